@@ -11,7 +11,7 @@ rsync -a --exclude .git --exclude '*.pyc' --exclude __pycache__ --exclude docs -
 cp -r "$d/clean" "$d/patched"
 ( cd "$d/patched" && patch -p1 -s < "$src/patch$k.diff" ) || { echo "PATCH FAILED"; exit 3; }
 # the demo is run from <tree>/out/ with the tree first on sys.path; hard-coded agent worktree paths are redirected
-sed -E "s#([\"'])/tmp/seed-C[0-9]+/?([\"'])#__import__('os').environ.get('REPO_UNDER_TEST', '/repo')#g; s#/tmp/seed-C[0-9]+#\${REPO_UNDER_TEST}#g" "$src/demo$k.py" > "$d/demo.py"
+sed -E "s#([\"'])/tmp/seed2?-C[0-9]+/?([\"'])#__import__('os').environ.get('REPO_UNDER_TEST', '/repo')#g; s#/tmp/seed2?-C[0-9]+#\${REPO_UNDER_TEST}#g" "$src/demo$k.py" > "$d/demo.py"
 grep -q 'REPO_UNDER_TEST}' "$d/demo.py" && sed -i -E "s#([\"'])([^\"']*)\$\{REPO_UNDER_TEST\}([^\"']*)([\"'])#(__import__('os').environ.get('REPO_UNDER_TEST', '/repo') + \1\3\4)#g" "$d/demo.py"
 for t in clean patched; do mkdir -p "$d/$t/out"; cp "$d/demo.py" "$d/$t/out/demo.py"; done
 ( cd "$d/clean" && REPO_UNDER_TEST="$d/clean" PYTHONPATH="$d/clean" timeout 900 /venv/bin/python out/demo.py > "$d/demo_clean.log" 2>&1 ); rc_clean=$?
@@ -30,21 +30,22 @@ PY
   echo "stable_pass regressions with the patch: $reg"
 fi
 cd "$here"
-VF_OUT="$d/out" VERIF_REPO="$d/patched" ./check $prop quick > "$d/check.log" 2>&1; rc=$?
-echo "check $prop quick on patched copy -> exit $rc :: $(grep -m2 'unlisted failure' $d/check.log | cut -c1-260 | tr '\n' '|')"
+chk=${CHECK_PROP:-$prop}   # a change that breaks <prop> through a call history may be the business of another property's check
+VF_OUT="$d/out" VERIF_REPO="$d/patched" ./check $chk quick > "$d/check.log" 2>&1; rc=$?
+echo "check $chk quick on patched copy -> exit $rc :: $(grep -m2 'unlisted failure' $d/check.log | cut -c1-260 | tr '\n' '|')"
 mkdir -p seeded/$id
 cp "$src/patch$k.diff" seeded/$id/patch.diff; cp "$d/demo.py" seeded/$id/demo.py
 [ -f "$src/note$k.txt" ] && cp "$src/note$k.txt" seeded/$id/note.txt
-/venv/bin/python - "$id" "$prop" "$rc_clean" "$rc_patched" "$rc" "$reg" "$*" "$(grep -m3 'unlisted failure' $d/check.log | cut -c1-300)" <<'PY'
+/venv/bin/python - "$id" "$prop" "$rc_clean" "$rc_patched" "$rc" "$reg" "$*" "$(grep -m3 'unlisted failure' $d/check.log | cut -c1-300)" "$chk" <<'PY'
 import json, sys
-id_, prop, rc_clean, rc_patched, rc, reg, tests, hits = sys.argv[1:9]
+id_, prop, rc_clean, rc_patched, rc, reg, tests, hits, chk = sys.argv[1:10]
 note = ""
 try: note = open(f"seeded/{id_}/note.txt").read()
 except Exception: pass
 json.dump({"id": id_, "breaks_property": prop, "needs_to_manifest": note.strip(),
   "confirmed": {"patch_applies_to_repo_head": True, "demo_exit_clean_tree": int(rc_clean), "demo_exit_patched_tree": int(rc_patched),
                 "stable_pass_regressions_in_modules": reg, "test_modules_run": tests},
-  "check": {"command": f"VERIF_REPO=<scratch copy with patch> ./check {prop} quick", "exit": int(rc), "caught": int(rc) == 1, "first_failures": hits.split("\n")},
+  "check": {"command": f"VERIF_REPO=<scratch copy with patch> ./check {chk} quick", "check_property": chk, "exit": int(rc), "caught": int(rc) == 1, "first_failures": hits.split("\n")},
   "history": __import__("os").environ.get("SEED_NOTE", "caught by the check as it stood when the change arrived"),
   "origin": "independent sub-agent given only the property text and a scratch worktree"}, open(f"seeded/{id_}/meta.json", "w"), indent=1)
 PY
